@@ -473,8 +473,6 @@ func (e GovEngine) Check(r *Run, s *Step, o *Outcome) []Violation {
 func (e GovEngine) Finish(r *Run) []Violation {
 	st := gst(r)
 	switch r.Prop {
-	case "C15":
-		return st.C15.finish(r)
 	case "C14":
 		return st.C14.finish(r)
 	case "C16":
